@@ -6,7 +6,7 @@
 From DV Require Import Base.Prelude Model.NameM Model.TokM Model.RdTextM.
 From DV Require Import Proofs.NameValid Proofs.NameOrder Proofs.NameText.
 From DV Require Import Proofs.TokEsc Proofs.TokTxt Proofs.TokWords Proofs.TokDec Proofs.TokHex
-     Proofs.TokShape Proofs.TokGeneric Proofs.TokUtf8 Proofs.RdTextName Proofs.RdTextAddr Proofs.RdTextBitmap Proofs.RdTextTypes Proofs.RdTextB32 Proofs.RdTextSig Proofs.RdTextEui Proofs.RdTextFmtHex Proofs.RdTextLoc Proofs.RdText Proofs.RdTextRel Proofs.RdTextWire Proofs.RdTextSchemaTie.
+     Proofs.TokShape Proofs.TokGeneric Proofs.TokUtf8 Proofs.RdTextName Proofs.RdTextAddr Proofs.RdTextBitmap Proofs.RdTextTypes Proofs.RdTextB32 Proofs.RdTextSig Proofs.RdTextEui Proofs.RdTextFmtHex Proofs.RdTextLoc Proofs.RdTextLocAlt Proofs.RdText Proofs.RdTextRel Proofs.RdTextWire Proofs.RdTextSchemaTie.
 From DV Require Model.SchemaM.
 Open Scope Z_scope.
 
@@ -294,19 +294,25 @@ Proof. repeat split; vm_compute; reflexivity. Qed.
    numbers that records read from wire contain it is settled here:
    - the sizes base * 10^exponent cm (RFC 1876, 100 values): the re-read float has the same int(), hence the same
      encoded octet, and passes _encode_size;
-   - the altitude (whole cm): round(float(text) * 100.0) is the altitude again - swept for 2000 values at each end
-     of the wire range and around zero (partial: the remaining values are left to the record-level oracle). *)
+   - the altitude (whole cm): round(float(text) * 100.0) is the altitude again for every value of the 32-bit wire
+     range, by error bounds on the three correctly rounded operations (no sweep). *)
 Theorem loc_sizes_from_wire_roundtrip : forall b e, 0 <= b <= 9 -> 0 <= e <= 9 ->
   exists y, num_reparse (wire_size b e) = FFin y /\ dbl_trunc y = dbl_trunc (wire_size b e) /\
     loc_size_ok (FFin y) = Ok tt /\ 0 <= dm (wire_size b e).
 Proof. exact wire_size_roundtrip. Qed.
 Print Assumptions loc_sizes_from_wire_roundtrip.
 
-Theorem loc_altitude_roundtrip_partial : forall alt,
-  (-10000000 <= alt < -9998000) \/ (-1000 <= alt < 1000) \/ (4284965296 <= alt < 4284967296) ->
+Theorem loc_altitude_roundtrip : forall alt, -10000000 <= alt < 4284967296 ->
   exists a', num_reparse (the_dbl (dbl_of_Z alt)) = FFin a' /\ dbl_round a' = alt.
-Proof. exact altitude_roundtrip_swept. Qed.
-Print Assumptions loc_altitude_roundtrip_partial.
+Proof. exact altitude_roundtrip. Qed.
+Print Assumptions loc_altitude_roundtrip.
+
+(* the rounding primitive: for 2^-10 <= n/d < 2^40 the result is finite and within half a unit of its last place *)
+Theorem double_rounding_spec : forall neg n d, 0 < n -> 0 < d -> d <= n * 2 ^ 10 -> n < d * 2 ^ 40 ->
+  exists m e, round_q neg n d = FFin (mkD neg m e) /\ -64 <= e <= -11 /\ 0 <= m /\
+    Z.abs (m * d - n * 2 ^ (- e)) * 2 <= d.
+Proof. exact round_q_spec. Qed.
+Print Assumptions double_rounding_spec.
 
 (* ------------------------------------------------------------------ whole records *)
 
